@@ -45,6 +45,8 @@ def plan(tier, seed):
             for naming in namings:
                 kk = k if (tier == "thorough" or n <= 4) else 2  # quick: three nested keys on trees up to 4 modules
                 shards.append({"tree": t, "naming": naming, "k": kk, "bound": f"trees<={n_max} alias keys<={k} (n=5: {kk}) naming={naming}" if kk != k else f"trees<={n_max} alias keys<={k} naming={naming}"})
+            # names of very different lengths (a shallow module with a longer name than deeper ones)
+            shards.append({"tree": t, "naming": "lengths", "k": 2, "bound": f"trees<={n_max} alias keys<=2 naming=lengths"})
             if n <= 4 or tier == "thorough":
                 # a child repeats the name of its package (r.r, r.ra, r.r.r); level-limited and implicit-ancestor architectures
                 shards.append({"tree": t, "naming": "selfprefix", "k": 2, "bound": f"trees<={n_max} alias keys<=2 naming=selfprefix"})
